@@ -406,12 +406,18 @@ def plan(case, rng, exhaustive_subsets):
         return rng.choice(inner) if inner and rng.random() < 0.8 else rng.choice(sets)
 
     mixed = len({f["ua"] for f in case["fk"]}) == 2
+    inner = any(s and s != full for s in down) or any(s and s != full for s in up)
+    # use_alter only changes the sort on a backend without ALTER: for 3+ tables with mixed flags one of lite / real is recorded
+    skip = rng.choice(("lite", "real")) if (n >= 3 and mixed) else None
     for kind in ("pg", "lite", "real"):
-        if kind != "pg" and n >= 3 and mixed and rng.random() < 0.5:
-            continue        # use_alter only changes the sort on a backend without ALTER: mixed assignments are sampled there
+        if kind == skip:
+            continue
         if kind == "pg":
             out.append((kind, "S1", None, None))
-            s3 = True
+            # without a non-trivial closed subset S3 degenerates to "nothing pre-exists / everything pre-exists"
+            s3 = n <= 2 or inner or rng.random() < 0.25
+            if not s3 and rng.random() < 0.5:
+                out.append((kind, "S1cf", None, None))
         else:
             s3 = rng.random() < 0.5
             if not s3:
